@@ -116,22 +116,22 @@ func doHarvest() {
 }
 
 type c03world struct {
-	h       *p2pke.Session // honest session under test
-	hInit   bool
-	vp      *p2pke.Session // V's genuine session paired with H (opposite role)
-	fp      *forgedPeer    // attacker's handshake that H accepted a hello from (nil if none)
-	last    *forgedPeer    // attacker's most recent attempt (used when none was accepted)
-	advanced bool          // set by deliverToH when H's handshake state moved
-	twin    *kefake.Peer   // adversary's twin-hello handshake with H
-	fpCB    []byte         // channel binding the attacker's next signature must cover
-	hOut    [][]byte       // messages emitted by H
-	vpOut   [][]byte       // messages emitted by Vp
-	mSigned bool           // attacker signed the transcript of its handshake with H with its own key
+	h            *p2pke.Session // honest session under test
+	hInit        bool
+	vp           *p2pke.Session // V's genuine session paired with H (opposite role)
+	fp           *forgedPeer    // attacker's handshake that H accepted a hello from (nil if none)
+	last         *forgedPeer    // attacker's most recent attempt (used when none was accepted)
+	advanced     bool           // set by deliverToH when H's handshake state moved
+	twin         *kefake.Peer   // adversary's twin-hello handshake with H
+	fpCB         []byte         // channel binding the attacker's next signature must cover
+	hOut         [][]byte       // messages emitted by H
+	vpOut        [][]byte       // messages emitted by Vp
+	mSigned      bool           // attacker signed the transcript of its handshake with H with its own key
 	forgedParsed int
-	kinds   map[string]bool
-	trace   []string
-	hSent   map[string]bool
-	vpSent  map[string]bool
+	kinds        map[string]bool
+	trace        []string
+	hSent        map[string]bool
+	vpSent       map[string]bool
 }
 
 func (w *c03world) addH(m []byte) {
